@@ -22,7 +22,7 @@ P = {
          "C12 (grid independent of output options) is verified per case by the ode-log hash before the twin is used", "§4 C05"),
  "C06": ("endpoint-identity and span monitors on every stored dense segment and on the interpolants handed to SolOut",
          "For every accepted step of every run: interpolant equals the stored state at both step ends (rounding bound), sol(t_i) reproduces samples, sol succeeds exactly on the covered span and fails outside, NotEnabled when disabled.",
-         "rounding bound 256 eps (|y| + (|h| + |t|) |f|)", "§4 C06"),
+         "rounding bound 64 eps (|y| + (|h| + |t|) max(|f|, |secant slope|))", "§4 C06"),
  "C07": ("continuous order conditions on extracted dense weights b_j(theta) (exhaustive over rooted trees) + empirical interior error slopes + Radau collocation polynomial check",
          "Dense-output weights are extracted from the real interpolant and checked against all continuous order conditions up to q at many theta; interior error slopes on closed-form problems for all six methods; BDF interior vs endpoint error on whole runs.",
          "order-condition theory; extraction exact", "§4 C07"),
